@@ -328,6 +328,13 @@ func pkgPathOf(f *ssa.Function) string {
 	if f.Parent() != nil {
 		return pkgPathOf(f.Parent())
 	}
+	// instantiation of a generic function
+	if o := f.Origin(); o != nil && o != f {
+		return pkgPathOf(o)
+	}
+	if f.Object() != nil && f.Object().Pkg() != nil {
+		return f.Object().Pkg().Path()
+	}
 	return ""
 }
 
